@@ -419,6 +419,13 @@ func (c *Conn) fill(i int) (err error) {
 			}
 		}
 		if err != nil {
+			// The error is reported once the bytes that arrived before it have been
+			// handed out, whether it came with the last of them (n > 0, as crypto/tls
+			// reports a close_notify in the same segment) or by a read of its own.
+			if c.Len() > 0 {
+				c.err = err
+				return nil
+			}
 			return err
 		}
 	}
